@@ -20,7 +20,7 @@ RULE = ('modes plain/json/xml/xml-b/html/html with --link/server; shape: symboli
         'context offset/length in -2..50; trunc: symbolic cut point of the answer bytes through '
         'the real decoder; outcome per output mode must be SystemExit(1) after a diagnostic or a '
         'report with every location inside the file.')
-BOUNDS = {'quick': '3 documents x 20 fields x 13 kinds; all integers offset/length; every byte '
+BOUNDS = {'quick': '5 documents x 20 fields x 13 kinds; all integers offset/length; every byte '
                    'truncation of 2 answers + 14 wrong-shape answers',
           'thorough': 'same + two simultaneously malformed matches'}
 OUTSIDE = 'the HTTP transport; answers larger than two matches; context offsets beyond 50 ' \
@@ -31,6 +31,9 @@ ASSUMPTIONS = ['proofreader process stubbed at subprocess.run / run_languagetool
 
 DOCS = [('plain', 'Ab cd\nef gh.\n', []),
         ('ctrl', 'Ab\x0c cd\u2028ef\x0b gh\x85\n% \x1c \x1d \x1e\nij kl.\n', []),
+        # a LaTeX problem close to the end of the file: the error mark is split, its tail is
+        # pinned to the last character
+        ('errmark', 'Ab cd\nef \\verb|abc\n', []),
         ('foot', 'Größe\\footnote{Fuß} zwei\ndrei.\n', []),
         ('ml', '\\usepackage[english]{babel}\nOne \\foreignlanguage{german}{zwei drei vier} two.\n',
          ['--multi-language'])]
@@ -232,9 +235,9 @@ def items(tier, seed):
     for d in DOCS:
         for fi in range(len(FIELDS) - 1):
             out.append({'h': 'shape', 'doc': d[0], 'fi': fi, 'sym': 'kind', 'cost': 2})
-        if tier != 'quick' or d[0] in ('plain', 'ctrl'):
+        if tier != 'quick' or d[0] in ('plain', 'ctrl', 'errmark'):
             # offset symbolic and unbounded; one work item per length (parallel)
-            for lf in ((1,) if (tier == 'quick' and d[0] == 'ctrl') else ())  or ((-1, 0, 1, 2, 7, 1000) if tier == 'quick' else
+            for lf in ((1,) if (tier == 'quick' and d[0] in ('ctrl', 'errmark')) else ())  or ((-1, 0, 1, 2, 7, 1000) if tier == 'quick' else
                        (-1000, -2, -1, 0, 1, 2, 3, 5, 7, 12, 50, 1000)):
                 out.append({'h': 'shape', 'doc': d[0], 'fi': len(FIELDS) - 1, 'sym': 'range',
                             'lfix': lf, 'cost': 9, 'budget': 900})
